@@ -669,14 +669,21 @@ func disjoint(a, b *ucfg.Config) bool {
 			return false
 		}
 	}
-	p := a
-	for i := 0; i < 64 && p != nil; i++ {
-		if rb[p] {
+	// the recorded ancestors of EVERY node below a (a config returned by Child() on a nil entry, or a
+	// removed child, claims a parent that does not contain it): none of them may lie in b
+	for n := range ra {
+		p := n
+		for i := 0; i < 64 && p != nil; i++ {
+			if rb[p] {
+				return false
+			}
+			p = p.Parent()
+		}
+		if p != nil {
 			return false
 		}
-		p = p.Parent()
 	}
-	return p == nil
+	return true
 }
 
 func storeDrive(args []string) int {
@@ -764,6 +771,19 @@ func storeDrive(args []string) int {
 				op.Name = []seg{}
 			}
 			res := applyStore(&hs, op)
+			if os.Getenv("VERIF_DEBUG_CYCLE") != "" {
+				for hi, h := range hs {
+					p := h
+					for k := 0; k < 64 && p != nil; k++ {
+						p = p.Parent()
+					}
+					if p != nil {
+						b, _ := json.Marshal(op)
+						fmt.Fprintf(os.Stderr, "CTX CYCLE at handle %d after session %d step %d op %s\n", hi+1, s, i, b)
+						return 3
+					}
+				}
+			}
 			ev := map[string]interface{}{"sess": s, "op": op, "res": res, "post": projectStore(hs, addrs, comps)}
 			if err := w.Encode(ev); err != nil {
 				fmt.Fprintln(os.Stderr, err)
